@@ -164,8 +164,12 @@ Proof.
              In m (loopMoves (ptBB p (myPiece w wp)) g) /\ N.testbit vt (mto m) = true)).
   { intros wp g Hwp Hg. rewrite !loopMoves_iff; try (apply Hbb; exact Hwp); try exact Hg; [|intros sq Hs; apply land_lt_l, Hg, Hs].
     rewrite N.land_spec, andb_true_iff. tauto. }
-  unfold eQ, eR, eB, eN. rewrite (Hloop WQUEEN (gQ p)), (Hloop WROOK (gR p)), (Hloop WBISHOP (gB p)), (Hloop WKNIGHT (gN p));
-    try (cbn [In]; tauto); try assumption.
+  assert (IQ : In WQUEEN [2; 3; 4; 5]) by (left; reflexivity).
+  assert (IR : In WROOK [2; 3; 4; 5]) by (right; left; reflexivity).
+  assert (IB : In WBISHOP [2; 3; 4; 5]) by (right; right; left; reflexivity).
+  assert (IN : In WKNIGHT [2; 3; 4; 5]) by (right; right; right; left; reflexivity).
+  unfold eQ, eR, eB, eN.
+  rewrite (Hloop WQUEEN (gQ p) IQ HgQ), (Hloop WROOK (gR p) IR HgR), (Hloop WBISHOP (gB p) IB HgB), (Hloop WKNIGHT (gN p) IN HgN).
   assert (E1 : In m eP1 <-> In m (lP1 p) /\ N.testbit vt (mto m) = true).
   { unfold eP1, lP1. fold w occ pawns. fold m1. rewrite !pawnTo_iff; [|exact H1 | apply land_lt_l; exact H1].
     rewrite N.land_spec, andb_true_iff. tauto. }
@@ -183,11 +187,13 @@ Proof.
   assert (E4 : In m eP4 <-> In m (lP4 p) /\ (N.testbit vt (mto m) = true \/ N.testbit (epMaskOf p) (mto m) = true)).
   { unfold eP4, lP4. fold w pawns kR. fold eoe. rewrite !pawnTo_iff; [|exact H4 | apply land_lt_l, land_lt_l, fwd_lt; exact Hp].
     rewrite Hcap. tauto. }
-  rewrite E1, E2, E3, E4. tauto.
+  rewrite E1, E2, E3, E4. reflexivity.
 Qed.
 
 Theorem evasions_sub : forall m, In m (checkEvasions p) -> In m (pseudoLegalMoves p).
 Proof.
-  intros m H. apply evasions_iff in H. rewrite pseudo_list, !in_app_iff. tauto.
+  intros m H. apply evasions_iff in H. rewrite pseudo_list, !in_app_iff.
+  destruct H as [[H _]|[[H _]|[[H _]|[H|[[H _]|[[H _]|[[H _]|[[H _]|[H _]]]]]]]]];
+    solve [repeat first [left; assumption | right]; assumption].
 Qed.
 End Evasions.
